@@ -37,6 +37,7 @@ def run_campaign(chk, b, profiles, ncases, facets, sig_prefix, nontrivial_fn, ru
                 stats["runs_behind_permuting_shim"] += 1
         stats["runs_with_an_injected_git_fault"] += r.get("faulted_runs", 0)
         stats["generator_discards"] += r.get("discarded", 0)
+        stats["runs_with_stalling_children"] += r.get("stalled_runs", 0)
         stats["runs_with_for_each_ref_output_cut_mid_line"] += r.get("cut_ref_runs", 0)
         for s in r["samples"]:
             chk.sample(s)
